@@ -84,6 +84,7 @@ enum End {
 
 struct ChildRun {
     fast_limits_applied: bool,
+    spurious: bool,
     stuck_cpu_ms: u64,
     stuck_wall_ms: u64,
     lines: Vec<String>, // protocol lines other than S/C (P, D)
@@ -119,11 +120,33 @@ fn classify_death(status: std::process::ExitStatus, stderr: &str) -> (&'static s
     (kind, format!("{how}; stderr: {tail}"))
 }
 
-/// Run one child; the limits apply to the time spent under one progress marker (S or C line).
+static PROGRESS_SEQ: AtomicUsize = AtomicUsize::new(0);
+
+fn marker_of_code(code: u64) -> Option<&'static str> {
+    match code {
+        1 => Some("probe:parse"),
+        2 => Some("probe:translate"),
+        3 => Some("probe:bind"),
+        4 => Some("exec"),
+        _ => None,
+    }
+}
+
+/// Run one child; the limits apply to the time spent under one progress marker.
+///
+/// The hang decision never depends on how fast this process drains the child's pipe: the child stores
+/// (marker sequence number, call code) in a small progress file before every call, and the parent reads
+/// that file and /proc/<pid>/stat in the same poll.  The pipe (fully drained after the child is gone)
+/// says which string and call the last marker belonged to.
 fn run_child(args: &[String], limits_for: &dyn Fn(Option<&str>) -> Limits) -> ChildRun {
+    use std::os::unix::fs::FileExt;
     let exe = std::env::current_exe().unwrap_or_else(|e| vcore::machinery_failure(&format!("current_exe: {e}")));
+    let ppath = scratch().join(format!("progress-{}", PROGRESS_SEQ.fetch_add(1, Ordering::Relaxed)));
+    std::fs::write(&ppath, [0u8; 16]).unwrap_or_else(|e| vcore::machinery_failure(&format!("progress file: {e}")));
+    let pfile = std::fs::File::open(&ppath).unwrap_or_else(|e| vcore::machinery_failure(&format!("progress file: {e}")));
     let mut child: Child = Command::new(exe)
         .args(args)
+        .env("C12_PROGRESS", &ppath)
         .env("RUST_BACKTRACE", "0")
         // allocator tuning only (glibc grows non-main arenas page by page through mprotect, which made a child 5x slower)
         .env("MALLOC_ARENA_MAX", "1")
@@ -155,53 +178,58 @@ fn run_child(args: &[String], limits_for: &dyn Fn(Option<&str>) -> Limits) -> Ch
         let _ = stderr.read_to_end(&mut buf);
         String::from_utf8_lossy(&buf).into_owned()
     });
-    let mut run = ChildRun { fast_limits_applied: false, stuck_cpu_ms: 0, stuck_wall_ms: 0, lines: vec![], last_s: None, last_c: None, end: End::Finished };
+    let mut run = ChildRun { fast_limits_applied: false, spurious: false, stuck_cpu_ms: 0, stuck_wall_ms: 0, lines: vec![], last_s: None, last_c: None, end: End::Finished };
     let pid = child.id();
     let mut finished = false;
     let mut timed_out = false;
     let spawned = Instant::now();
-    let mut started = false;
-    let mut seq: u64 = 0; // number of markers seen
+    let mut pipe_seq: u64 = 0; // markers seen on the pipe
+    let mut decision_seq: u64 = 0;
     let mut last_poll = Instant::now();
     let mut poll_seq: u64 = u64::MAX;
     let mut poll_cpu: u64 = 0;
     let mut stuck_cpu: u64 = 0;
     let mut stuck_since = Instant::now();
+    let mut handle = |line: String, run: &mut ChildRun, finished: &mut bool, pipe_seq: &mut u64| {
+        if let Some(r) = line.strip_prefix("S ") {
+            run.last_s = r.trim().parse().ok();
+            run.last_c = None;
+            *pipe_seq += 1;
+        } else if let Some(r) = line.strip_prefix("C ") {
+            run.last_c = Some(r.trim().to_string());
+            *pipe_seq += 1;
+        } else if line == "E" {
+            *finished = true;
+        } else if !line.is_empty() {
+            run.lines.push(line);
+        }
+    };
     loop {
         match rx.recv_timeout(POLL) {
-            Ok(line) => {
-                if let Some(r) = line.strip_prefix("S ") {
-                    run.last_s = r.trim().parse().ok();
-                    run.last_c = None;
-                    started = true;
-                    seq += 1;
-                } else if let Some(r) = line.strip_prefix("C ") {
-                    run.last_c = Some(r.trim().to_string());
-                    seq += 1;
-                } else if line == "E" {
-                    finished = true;
-                } else if !line.is_empty() {
-                    run.lines.push(line);
-                }
-            }
+            Ok(line) => handle(line, &mut run, &mut finished, &mut pipe_seq),
             Err(mpsc::RecvTimeoutError::Timeout) => {}
             Err(mpsc::RecvTimeoutError::Disconnected) => break,
         }
         if last_poll.elapsed() >= POLL {
             last_poll = Instant::now();
             let cpu = cpu_ms(pid).unwrap_or(poll_cpu);
-            if seq == poll_seq {
+            let mut buf = [0u8; 16];
+            let _ = pfile.read_at(&mut buf, 0);
+            let fseq = u64::from_le_bytes(buf[0..8].try_into().unwrap());
+            let code = u64::from_le_bytes(buf[8..16].try_into().unwrap());
+            if fseq == poll_seq {
                 stuck_cpu += cpu.saturating_sub(poll_cpu);
             } else {
                 stuck_cpu = 0;
                 stuck_since = last_poll;
-                poll_seq = seq;
+                poll_seq = fseq;
             }
             poll_cpu = cpu;
-            let limits = limits_for(run.last_c.as_deref());
-            let over = if started { !finished && (stuck_cpu >= limits.cpu_ms || stuck_since.elapsed() >= limits.wall) } else { spawned.elapsed() >= STARTUP_DEADLINE };
+            let limits = limits_for(marker_of_code(code));
+            let over = if fseq > 0 { !finished && (stuck_cpu >= limits.cpu_ms || stuck_since.elapsed() >= limits.wall) } else { spawned.elapsed() >= STARTUP_DEADLINE };
             if over {
                 timed_out = true;
+                decision_seq = fseq;
                 run.fast_limits_applied = limits == FAST_LIMITS;
                 run.stuck_cpu_ms = stuck_cpu;
                 run.stuck_wall_ms = stuck_since.elapsed().as_millis() as u64;
@@ -212,19 +240,21 @@ fn run_child(args: &[String], limits_for: &dyn Fn(Option<&str>) -> Limits) -> Ch
     }
     let status = child.wait();
     let _ = reader.join();
-    // drain whatever the reader had already queued
+    // everything the child wrote before it ended
     while let Ok(line) = rx.try_recv() {
-        if line == "E" {
-            finished = true;
-        } else if !line.starts_with("S ") && !line.starts_with("C ") && !line.is_empty() {
-            run.lines.push(line);
-        }
+        handle(line, &mut run, &mut finished, &mut pipe_seq);
     }
     let errtxt = err_reader.join().unwrap_or_default();
-    run.end = if timed_out {
-        End::Timeout
-    } else if finished {
+    let _ = std::fs::remove_file(&ppath);
+    run.end = if finished {
         End::Finished
+    } else if timed_out {
+        // the child left the marker we judged in the instant before the kill: not a hang
+        run.spurious = decision_seq == 0 || pipe_seq != decision_seq;
+        if decision_seq == 0 {
+            vcore::machinery_failure("child did not start within the startup deadline");
+        }
+        End::Timeout
     } else {
         match status {
             Ok(st) => {
@@ -551,6 +581,7 @@ struct Shard {
     slow_rechecks: u64,
     fast_path_hangs: u64,
     ladder_skipped: u64,
+    spurious_kills: u64,
 }
 
 /// Limits for the call currently running in a batch child of segment (lang, family).
@@ -568,7 +599,7 @@ fn batch_limits(lang: Lang, family: &str, marker: Option<&str>) -> Limits {
 }
 
 fn process_chunk(space: &Space, tier: Tier, lo: usize, hi: usize) -> Shard {
-    let mut sh = Shard { sig_counts: BTreeMap::new(), rep: Report::new("C12", tier, "exploration"), stats: BTreeMap::new(), ladder: BTreeMap::new(), slow: vec![], large_slow: vec![], child_runs: 0, slow_rechecks: 0, fast_path_hangs: 0, ladder_skipped: 0 };
+    let mut sh = Shard { sig_counts: BTreeMap::new(), rep: Report::new("C12", tier, "exploration"), stats: BTreeMap::new(), ladder: BTreeMap::new(), slow: vec![], large_slow: vec![], child_runs: 0, slow_rechecks: 0, fast_path_hangs: 0, ladder_skipped: 0, spurious_kills: 0 };
     let seg = space.seg_of(lo);
     let (seg_lang, seg_family) = (seg.lang, seg.family);
     let mut cur = lo;
@@ -607,6 +638,10 @@ fn process_chunk(space: &Space, tier: Tier, lo: usize, hi: usize) -> Shard {
                     vcore::machinery_failure(&format!("worker finished but reported only up to {done_upto} of {hi}"));
                 }
                 cur = hi;
+            }
+            End::Timeout if run.spurious => {
+                sh.spurious_kills += 1;
+                cur = done_upto;
             }
             End::Died { .. } | End::Timeout => {
                 let Some(k) = run.last_s else { vcore::machinery_failure(&format!("worker died before its first string: {:?}", run.end)) };
@@ -899,6 +934,7 @@ fn run(args: vcore::Args) -> i32 {
     let mut slow: Vec<(u64, usize)> = vec![];
     let mut large_slow: Vec<Value> = vec![];
     let mut ladder_skipped = 0u64;
+    let mut spurious_kills = 0u64;
     let mut child_runs = 0u64;
     let mut slow_rechecks = 0u64;
     let mut fast_path_hangs = 0u64;
@@ -917,6 +953,7 @@ fn run(args: vcore::Args) -> i32 {
             e.1 = e.1.min(v.1);
             e.2 = e.2.min(v.2);
         }
+        spurious_kills += sh.spurious_kills;
         large_slow.extend(sh.large_slow);
         ladder_skipped += sh.ladder_skipped;
         slow.extend(sh.slow);
@@ -961,6 +998,7 @@ fn run(args: vcore::Args) -> i32 {
     large_slow.sort_by_key(|v| v.to_string());
     rep.set("slow_large_inputs_not_judged", json!(large_slow));
     rep.set("ladder_strings_skipped_after_first_crash_quick_tier", json!(ladder_skipped));
+    rep.set("kills_that_raced_with_progress_and_were_discarded", json!(spurious_kills));
 
     let mut fam_json = serde_json::Map::new();
     let mut totals: BTreeMap<&'static str, FamStats> = BTreeMap::new();
